@@ -38,6 +38,7 @@ package main
 
 import (
 	"bufio"
+	"bytes"
 	"context"
 	"errors"
 	"fmt"
@@ -70,7 +71,7 @@ func init() { register("C17", &Prop{Gen: genC17, Run: runC17}) }
 const (
 	c17ProbeClient = 99
 	c17ProbeKey    = 9
-	c17GuardMs     = 60 // deadlines closer than this (x scale) to a line are waited out first
+	c17GuardMs     = 60               // deadlines closer than this (x scale) to a line are waited out first
 	c17MaxKey      = 4096             // service.go: maxKeySize
 	c17MaxValue    = 10 * 1024 * 1024 // service.go: maxValueSize
 )
@@ -252,6 +253,7 @@ type c17Env struct {
 	mgr    *transaction.Manager
 	tm     transaction.TransactionManager
 	weng   *c17Engine
+	bulk   bool // the rows for `oneshot ... scanabort` are in the database
 	reg    *transaction.RegistryImpl
 	srv    *service.KevoServiceServer
 	gs     *grpc.Server
@@ -403,7 +405,9 @@ func c17Start(c *Case, scale int) (*c17Env, error) {
 		}))
 		pb.RegisterKevoServiceServer(v.gs, v.srv)
 		go v.gs.Serve(lis)
-		conn, err := grpc.NewClient(lis.Addr().String(), grpc.WithTransportCredentials(insecure.NewCredentials()))
+		conn, err := grpc.NewClient(lis.Addr().String(), grpc.WithTransportCredentials(insecure.NewCredentials()),
+			// fixed 64 KB flow-control windows: a server stream nobody reads stands after 64 KB
+			grpc.WithInitialWindowSize(65535), grpc.WithInitialConnWindowSize(65535))
 		if err != nil {
 			return nil, err
 		}
@@ -859,6 +863,9 @@ func (v *c17Env) oneshot(c int, kind string, k, val int) string {
 		ops, what = []*pb.Operation{first, {Type: pb.Operation_Type(7), Key: c17Key(5), Value: []byte("x")}}, "rejected: unknown operation type"
 	case "bigvalue":
 		ops, what = []*pb.Operation{first, put(c17Key(5), make([]byte, c17MaxValue+1))}, "rejected: value larger than the limit"
+	case "scanabort":
+		// not a BatchWrite: a Scan whose client goes away after the first row (below)
+		what = "Scan given up by its client after the first row"
 	default:
 		return "IMPL-ERROR bad oneshot kind " + kind
 	}
@@ -872,6 +879,44 @@ func (v *c17Env) oneshot(c int, kind string, k, val int) string {
 		return fmt.Sprintf("R %d busy", c)
 	}
 	regBefore := v.regIDs()
+	if kind == "scanabort" {
+		// the service's Scan begins a read-only transaction of its own and must end it on EVERY way
+		// out, also when sending fails because the client has gone. 200 rows of 600 bytes under keys
+		// outside the programs' alphabet (written once per case, straight through the engine) are
+		// more than the 64 KB the client's fixed flow-control window lets the handler send ahead.
+		if !v.bulk {
+			for i := 0; i < 200; i++ {
+				v.e.Put([]byte(fmt.Sprintf("~bulk-%04d", i)), bytes.Repeat([]byte{byte('a' + i%26)}, 600))
+			}
+			v.bulk = true
+		}
+		v.stats.oneshots++
+		sctx, scancel := context.WithCancel(v.ctxFor(c, context.Background()))
+		st, err := v.cli.Scan(sctx, &pb.ScanRequest{})
+		if err == nil {
+			_, err = st.Recv()
+		}
+		scancel()
+		if err != nil {
+			v.fail("the service's Scan failed before its client gave it up: %v", err)
+			v.abort = true
+			return fmt.Sprintf("R %d invalid", c)
+		}
+		v.stats.oneshotRejected++
+		// the handler notices the cancellation at its next Send; give it up to 5 s to return
+		dl := time.Now().Add(5 * time.Second)
+		for time.Now().Before(dl) && v.lockState() != "free" {
+			time.Sleep(5 * time.Millisecond)
+		}
+		v.quiesce()
+		if ls := v.lockState(); ls != "free" {
+			v.fail("the service's Scan (%s) left the transaction lock held (lock=%s five seconds after the client went away)", what, ls)
+			v.abort = true
+		} else if after := v.regIDs(); after != regBefore {
+			v.fail("the service's Scan (%s) changed the registered transactions (%s -> %s)", what, regBefore, after)
+		}
+		return fmt.Sprintf("R %d invalid", c) // as a rejected call: an error for the client, no effect
+	}
 	v.mu.Lock()
 	n0 := len(v.inners)
 	v.mu.Unlock()
